@@ -1,12 +1,15 @@
 (* drv_C11.ml — driver: runs the extracted C11 container model on operation
-   sequences.  Case: kind gm | gauss | pset, meta c l ci q (constructor
-   arguments; the constructor overload used by the harness does not matter to
-   the model), word ops (tokens, see props/C11.py), mat <name> for every noise
-   covariance.  After the constructor (step 0) and after every operation it
-   prints every descriptor, every storage matrix with its shape and the
-   per-component accessor views.  Uninitialised cells (junk) are NaN.  Before
-   each operation it evaluates the model's definedness predicate; at the first
-   undefined operation it prints "<k>.defined 0", "undefined_at <k>" and stops. *)
+   sequences over a pool of objects.  Case: kind gm | gauss | pset, meta c l ci q
+   (constructor arguments of slot 0; the constructor overload used by the harness
+   does not matter to the model), word pool (layouts c,l,ci,q of the further slots),
+   word ops (tokens, see props/C11.py), mat <name> for every noise covariance.
+   Every token becomes one pool operation (KOn / KLook / KCopy / KMove / KTemp) and
+   is executed by the extracted gm_kstep / gauss_kstep / ps_kstep.  After the
+   constructor (step 0) and after every operation it prints the slot the operation
+   wrote ("<k>.slot"), every descriptor of that object, every storage matrix with
+   its shape and the per-component accessor views.  Uninitialised cells (junk) are
+   NaN.  When kstep answers None (an operation outside the premises) it prints
+   "<k>.defined 0", "undefined_at <k>" and stops. *)
 let junk = ob nan
 let n2i = int_of_nat
 let i2n = nat_of_int
@@ -36,6 +39,7 @@ let hcat (ms : mx list) (rows : nat) : mx =
     mdata = List.concat (List.map (fun m -> m.mdata) ms) }
 
 let ints s = List.map int_of_string (String.split_on_char ',' s)
+let ints_opt s = try Some (ints s) with _ -> None
 let rest t = String.sub t 1 (String.length t - 1)
 let range n = List.init n (fun i -> i)
 let nmin a b = if n2i a <= n2i b then a else b
@@ -65,7 +69,13 @@ let dump_acc (k : int) (g : gm) =
   (* element accessors mean(i, j), covariance(i, j, k) *)
   out_mx (p "emean") (mk fops g.dim g.components (fun j i -> gm_mean_el fops g i j));
   out_mx (p "ecov")
-    (hcat (List.map (fun i -> mk fops g.dcov g.dcov (fun j kk -> gm_cov_el fops g (i2n i) j kk)) comps) g.dcov)
+    (hcat (List.map (fun i -> mk fops g.dcov g.dcov (fun j kk -> gm_cov_el fops g (i2n i) j kk)) comps) g.dcov);
+  (* the state part and the noise part of every component (head / tail, topLeftCorner / bottomRightCorner) *)
+  let nsub a b = i2n (max 0 (n2i a - n2i b)) in
+  out_mx (p "smean") (hcat (List.map (fun i -> gm_state_mean fops g (i2n i)) comps) (nsub g.dim g.dn));
+  out_mx (p "nmean") (hcat (List.map (fun i -> gm_noise_mean fops g (i2n i)) comps) (nsub g.mean_.mrows (nsub g.dim g.dn)));
+  out_mx (p "scov") (hcat (List.map (fun i -> gm_state_cov fops g (i2n i)) comps) (nsub g.dcov g.dn));
+  out_mx (p "ncov") (hcat (List.map (fun i -> gm_noise_cov fops g (i2n i)) comps) g.dn)
 
 let dump_gauss_acc (k : int) (g : gm) =
   let p s = Printf.sprintf "%d.%s" k s in
@@ -83,10 +93,73 @@ let dump_ps (k : int) (ps : pset) (ret : int) =
   dump_acc k ps.base;
   let comps = range (n2i ps.base.components) in
   out_mx (p "astate") (hcat (List.map (fun i -> ps_state fops ps (i2n i)) comps) ps.state_.mrows);
-  out_mx (p "estate") (mk fops ps.base.dim ps.base.components (fun j i -> ps_state_el fops ps i j))
+  out_mx (p "estate") (mk fops ps.base.dim ps.base.components (fun j i -> ps_state_el fops ps i j));
+  let nsub a b = i2n (max 0 (n2i a - n2i b)) in
+  out_mx (p "sstate") (hcat (List.map (fun i -> ps_state_part fops ps (i2n i)) comps) (nsub ps.base.dim ps.base.dn));
+  out_mx (p "nstate")
+    (hcat (List.map (fun i -> ps_noise_part fops ps (i2n i)) comps) (nsub ps.state_.mrows (nsub ps.base.dim ps.base.dn)))
 
 let z_of_string s = z_of_int (int_of_string s)
 exception Stop
+exception Dead
+
+let lay a b d q : layout = (((i2n a, i2n b), i2n d), q)
+let fields s = String.split_on_char ',' s
+
+(* One case.  [single tok x]: the single-object operation of an upper-case token applied to the object x in
+   focus, with the noise covariance whose acceptance is printed as "ret"; [special tok pool focus]: the
+   kind-specific tokens that are pool operations. *)
+let run_pool ~kstep ~pool0 ~single ~special ~op_fill ~op_aug ~op_resize ~aug_ret ~dump (c : Caseio.case) layouts ops getq =
+  let pool = ref (pool0 layouts) in
+  let focus = ref 0 in
+  let obj p i = match slot_get p (i2n i) with Some x -> x | None -> raise Dead in
+  let undefined k =
+    Caseio.out_int (Printf.sprintf "%d.defined" k) 0;
+    Caseio.out_int "undefined_at" k;
+    raise Stop
+  in
+  ignore c;
+  dump 0 (obj !pool 0) 1 0;
+  List.iteri
+    (fun k0 tok ->
+      let k = k0 + 1 in
+      let fld = fields (rest tok) in
+      let at i = int_of_string (List.nth fld i) in
+      let f = !focus in
+      let kop, nf, ret =
+        try
+          match tok.[0] with
+          | '@' -> (KLook (i2n (at 0)), at 0, 1)
+          | 'c' | 's' -> (KCopy (i2n (at 0), i2n (at 1)), at 0, 1)
+          | 'm' | 'v' -> (KMove (i2n (at 0), i2n (at 1)), at 0, 1)
+          | 'C' | 'S' -> (KCopy (i2n f, i2n f), f, 1)
+          | 'M' -> (KMove (i2n f, i2n f), f, 1)
+          | 't' | 'n' ->
+              let e = EFresh (lay (at 1) (at 2) (at 3) (at 4 <> 0)) in
+              let e = if at 5 >= 0 then EOp (op_fill (at 5), e) else e in
+              (KTemp (i2n (at 0), e), at 0, 1)
+          | 'f' | 'a' -> (KTemp (i2n (at 0), EOp (op_aug (getq (List.nth fld 2)), ESlot (i2n (at 1)))), at 0, 1)
+          | 'g' | 'b' -> (KTemp (i2n (at 0), EOp (op_resize (at 2) (at 3) (at 4), ESlot (i2n (at 1)))), at 0, 1)
+          | _ -> (
+              match special tok !pool f with
+              | Some (kop, nf) -> (kop, nf, 1)
+              | None ->
+                  let x = obj !pool f in
+                  let o, qm = single tok x in
+                  let ret = match qm with Some m -> if aug_ret m x then 1 else 0 | None -> 1 in
+                  (KOn (i2n f, o), f, ret))
+        with Dead -> undefined k
+      in
+      match kstep kop !pool with
+      | None -> undefined k
+      | Some p' ->
+          pool := p';
+          focus := nf;
+          (match slot_get p' (i2n nf) with
+           | Some x -> dump k x ret nf
+           | None -> undefined k);
+          Caseio.out_int (Printf.sprintf "%d.defined" k) 1)
+    ops
 
 let () =
   let cases = Caseio.read_records "case" stdin in
@@ -95,6 +168,11 @@ let () =
       let cc = Caseio.meta_int c "c" and l = Caseio.meta_int c "l" and ci = Caseio.meta_int c "ci" in
       let q = Caseio.meta_int c "q" <> 0 in
       let ops = if Caseio.has c "ops" then Caseio.get_word c "ops" else [] in
+      let extra = if Caseio.has c "pool" then Caseio.get_word c "pool" else [] in
+      let layouts =
+        lay cc l ci q
+        :: List.map (fun s -> match ints s with [ a; b; d; qq ] -> lay a b d (qq <> 0) | _ -> failwith "drv_C11: bad pool") extra
+      in
       Caseio.out_begin c.id;
       let getq name =
         (* noise covariance given with explicit shape (may be 0 x 0 or non-square) *)
@@ -102,96 +180,94 @@ let () =
         if r = 0 || cl = 0 then mk fops (i2n r) (i2n cl) (fun _ _ -> ob 0.0)
         else mx_of_mat (Caseio.get_mat c name)
       in
-      let undefined k =
-        Caseio.out_int (Printf.sprintf "%d.defined" k) 0;
-        Caseio.out_int "undefined_at" k;
-        raise Stop
-      in
+      let slot k i = Caseio.out_int (Printf.sprintf "%d.slot" k) i in
+      let no_special _ _ _ = None in
       (try
          match c.kind with
          | "gm" ->
-             let g = ref (gm_ctor fops (i2n cc) (i2n l) (i2n ci) q) in
-             dump_gm 0 !g 1;
-             dump_acc 0 !g;
-             List.iteri
-               (fun k0 tok ->
-                 let k = k0 + 1 in
-                 let op, qm =
-                   match tok.[0] with
-                   | 'F' -> (GFill (z_of_string (rest tok)), None)
-                   | 'C' | 'S' | 'M' -> (GCopy, None)
-                   | 'R' -> (match ints (rest tok) with [ a; b; d ] -> (GResize (i2n a, i2n b, i2n d), None) | _ -> failwith "bad R")
-                   | 'r' -> (match ints (rest tok) with [ a; b ] -> (GResize (i2n a, i2n b, i2n 0), None) | _ -> failwith "bad r")
-                   | 'A' -> let m = getq (rest tok) in (GAugment m, Some m)
-                   | 'W' -> (GAugmentSelf, Some !g.cov_)
-                   | _ -> failwith ("drv_C11: bad op " ^ tok)
-                 in
-                 if not (gop_defined fops op !g) then undefined k;
-                 let ret = match qm with Some m -> if fst (gm_augment fops m !g) then 1 else 0 | None -> 1 in
-                 g := gm_apply fops junk op !g;
-                 dump_gm k !g ret;
-                 Caseio.out_int (Printf.sprintf "%d.defined" k) 1;
-                 dump_acc k !g)
-               ops
+             let single tok (g : gm) =
+               match tok.[0] with
+               | 'F' -> (GFill (z_of_string (rest tok)), None)
+               | 'G' -> (GFillEl (z_of_string (rest tok)), None)
+               | 'H' -> (GFillBlk (z_of_string (rest tok)), None)
+               | 'R' -> (match ints (rest tok) with [ a; b; d ] -> (GResize (i2n a, i2n b, i2n d), None) | _ -> failwith "bad R")
+               | 'r' -> (match ints (rest tok) with [ a; b ] -> (GResize (i2n a, i2n b, i2n 0), None) | _ -> failwith "bad r")
+               | 'A' -> let m = getq (rest tok) in (GAugment m, Some m)
+               | 'W' -> (GAugmentSelf, Some g.cov_)
+               | _ -> failwith ("drv_C11: bad op " ^ tok)
+             in
+             (* a mixture assigned from a Gaussian (x) / from a filled ParticleSet returned by value (y): the
+                GaussianMixture part of those objects is the mixture the same constructor arguments give *)
+             let special tok _ _ =
+               match tok.[0], ints_opt (rest tok) with
+               | 'x', Some [ t; b; d; qq; _ ] -> Some (KTemp (i2n t, EFresh (lay 1 b d (qq <> 0))), t)
+               | 'y', Some [ t; a; b; d; qq; base ] ->
+                   Some (KTemp (i2n t, EOp (GFill (z_of_int base), EFresh (lay a b d (qq <> 0)))), t)
+               | _ -> None
+             in
+             run_pool ~kstep:(gm_kstep fops junk) ~pool0:(gm_pool0 fops) ~single ~special
+               ~op_fill:(fun b -> GFill (z_of_int b)) ~op_aug:(fun m -> GAugment m)
+               ~op_resize:(fun a b d -> GResize (i2n a, i2n b, i2n d))
+               ~aug_ret:(fun m g -> fst (gm_augment fops m g))
+               ~dump:(fun k g ret s -> dump_gm k g ret; slot k s; dump_acc k g)
+               c layouts ops getq
          | "gauss" ->
-             let g = ref (gauss_ctor fops (i2n l) (i2n ci) q) in
-             dump_gm 0 !g 1;
-             dump_acc 0 !g;
-             dump_gauss_acc 0 !g;
-             List.iteri
-               (fun k0 tok ->
-                 let k = k0 + 1 in
-                 let op, qm =
-                   match tok.[0] with
-                   | 'F' -> (NFill (z_of_string (rest tok)), None)
-                   | 'C' | 'S' | 'M' -> (NCopy, None)
-                   | 'R' -> (match ints (rest tok) with [ b; d ] -> (NResize (i2n b, i2n d), None) | _ -> failwith "bad R")
-                   | 'r' -> (match ints (rest tok) with [ b ] -> (NResize (i2n b, i2n 0), None) | _ -> failwith "bad r")
-                   | 'B' -> (match ints (rest tok) with [ a; b; d ] -> (NResizeBase (i2n a, i2n b, i2n d), None) | _ -> failwith "bad B")
-                   | 'A' -> let m = getq (rest tok) in (NAugment m, Some m)
-                   | 'W' -> (NAugmentSelf, Some !g.cov_)
-                   | _ -> failwith ("drv_C11: bad op " ^ tok)
-                 in
-                 if not (gaussop_defined fops op !g) then undefined k;
-                 let ret = match qm with Some m -> if fst (gm_augment fops m !g) then 1 else 0 | None -> 1 in
-                 g := gauss_apply fops junk op !g;
-                 dump_gm k !g ret;
-                 Caseio.out_int (Printf.sprintf "%d.defined" k) 1;
-                 dump_acc k !g;
-                 dump_gauss_acc k !g)
-               ops
+             let single tok (g : gm) =
+               match tok.[0] with
+               | 'F' -> (NFill (z_of_string (rest tok)), None)
+               | 'G' -> (NFillEl (z_of_string (rest tok)), None)
+               | 'H' -> (NFillBlk (z_of_string (rest tok)), None)
+               | 'R' -> (match ints (rest tok) with [ b; d ] -> (NResize (i2n b, i2n d), None) | _ -> failwith "bad R")
+               | 'r' -> (match ints (rest tok) with [ b ] -> (NResize (i2n b, i2n 0), None) | _ -> failwith "bad r")
+               | 'B' -> (match ints (rest tok) with [ a; b; d ] -> (NResizeBase (i2n a, i2n b, i2n d), None) | _ -> failwith "bad B")
+               | 'A' -> let m = getq (rest tok) in (NAugment m, Some m)
+               | 'W' -> (NAugmentSelf, Some g.cov_)
+               | _ -> failwith ("drv_C11: bad op " ^ tok)
+             in
+             run_pool ~kstep:(gauss_kstep fops junk) ~pool0:(gauss_pool0 fops) ~single ~special:no_special
+               ~op_fill:(fun b -> NFill (z_of_int b)) ~op_aug:(fun m -> NAugment m)
+               ~op_resize:(fun _ b d -> NResize (i2n b, i2n d))
+               ~aug_ret:(fun m g -> fst (gm_augment fops m g))
+               ~dump:(fun k g ret s -> dump_gm k g ret; slot k s; dump_acc k g; dump_gauss_acc k g)
+               c layouts ops getq
          | "pset" ->
-             let p = ref (ps_ctor fops (i2n cc) (i2n l) (i2n ci) q) in
-             dump_ps 0 !p 1;
              let fresh s =
                match ints s with
                | [ a; b; d; qq; base ] -> ps_apply fops junk (PFill (z_of_int base)) (ps_ctor fops (i2n a) (i2n b) (i2n d) (qq <> 0))
                | _ -> failwith "drv_C11: bad rhs"
              in
-             List.iteri
-               (fun k0 tok ->
-                 let k = k0 + 1 in
-                 let op, qm =
-                   match tok.[0] with
-                   | 'F' -> (PFill (z_of_string (rest tok)), None)
-                   | 'C' | 'S' | 'M' -> (PCopy, None)
-                   | 'R' -> (match ints (rest tok) with [ a; b; d ] -> (PResize (i2n a, i2n b, i2n d), None) | _ -> failwith "bad R")
-                   | 'r' -> (match ints (rest tok) with [ a; b ] -> (PResize (i2n a, i2n b, i2n 0), None) | _ -> failwith "bad r")
-                   | 'A' -> let m = getq (rest tok) in (PAugment m, Some m)
-                   | 'W' -> (PAugmentSelf, Some !p.base.cov_)
-                   | 'P' -> (PConcat (fresh (rest tok)), None)
-                   | 'Q' -> (PPlus (fresh (rest tok)), None)
-                   | 'D' -> (PConcat (ps_apply fops junk PCopy !p), None)   (* += a copy of itself *)
-                   | 'E' -> (PPlus !p, None)                                (* x + x: the left operand is copied *)
-                   | 'Z' -> (PConcatSelf, None)                             (* x += x *)
-                   | _ -> failwith ("drv_C11: bad op " ^ tok)
-                 in
-                 if not (pop_defined fops junk op !p) then undefined k;
-                 let ret = match qm with Some m -> if fst (ps_augment fops m !p) then 1 else 0 | None -> 1 in
-                 p := ps_apply fops junk op !p;
-                 dump_ps k !p ret;
-                 Caseio.out_int (Printf.sprintf "%d.defined" k) 1)
-               ops
+             let single tok (p : pset) =
+               match tok.[0] with
+               | 'F' -> (PFill (z_of_string (rest tok)), None)
+               | 'G' -> (PFillEl (z_of_string (rest tok)), None)
+               | 'H' -> (PFillBlk (z_of_string (rest tok)), None)
+               | 'R' -> (match ints (rest tok) with [ a; b; d ] -> (PResize (i2n a, i2n b, i2n d), None) | _ -> failwith "bad R")
+               | 'r' -> (match ints (rest tok) with [ a; b ] -> (PResize (i2n a, i2n b, i2n 0), None) | _ -> failwith "bad r")
+               | 'A' -> let m = getq (rest tok) in (PAugment m, Some m)
+               | 'W' -> (PAugmentSelf, Some p.base.cov_)
+               | 'P' -> (PConcat (fresh (rest tok)), None)
+               | 'Q' -> (PPlus (fresh (rest tok)), None)
+               | 'D' -> (PConcat (ps_apply fops junk PCopy p), None)   (* += a copy of itself *)
+               | 'Z' -> (PConcatSelf, None)                            (* x += x *)
+               | _ -> failwith ("drv_C11: bad op " ^ tok)
+             in
+             let special tok pool f =
+               match tok.[0], ints_opt (rest tok) with
+               | 'E', _ -> Some (KTemp (i2n f, EBin (ESlot (i2n f), ESlot (i2n f))), f)   (* X n(x + x) replaces x *)
+               | ('p' | 'w'), Some [ t; a; b ] -> Some (KTemp (i2n t, EBin (ESlot (i2n a), ESlot (i2n b))), t)
+               | 'u', Some [ t; s ] -> (
+                   (* t += s for another named object s *)
+                   match slot_get pool (i2n s) with
+                   | Some x -> Some (KOn (i2n t, PConcat x), t)
+                   | None -> raise Dead)
+               | _ -> None
+             in
+             run_pool ~kstep:(ps_kstep fops junk) ~pool0:(ps_pool0 fops) ~single ~special
+               ~op_fill:(fun b -> PFill (z_of_int b)) ~op_aug:(fun m -> PAugment m)
+               ~op_resize:(fun a b d -> PResize (i2n a, i2n b, i2n d))
+               ~aug_ret:(fun m p -> fst (ps_augment fops m p))
+               ~dump:(fun k p ret s -> dump_ps k p ret; slot k s)
+               c layouts ops getq
          | k -> failwith ("drv_C11: unknown kind " ^ k)
        with Stop -> ());
       Caseio.out_end ())
